@@ -180,3 +180,37 @@ pub fn delta_line_delta_start(text: &str) -> (u32, u32) {
 
     (line_break_count, text.len() as u32 - last_line_break_index)
 }
+
+#[cfg(feature = "isographlabs_isograph_verif")]
+pub mod verif_hook {
+    //! Verification hooks: access to the private semantic-token conversion functions.
+    use super::*;
+
+    /// The per-line pieces of one relative token: (absolute start, len, lsp token type).
+    pub fn absolutize_relative_token(
+        page_content: &str,
+        iso_literal_extraction_span: Span,
+        relative_token: &WithEmbeddedLocation<IsographSemanticToken>,
+    ) -> Vec<(u32, u32, u32)> {
+        super::absolutize_relative_token(page_content, iso_literal_extraction_span, relative_token)
+            .map(|t| {
+                (
+                    t.absolute_char_start,
+                    t.len,
+                    t.semantic_token.lsp_semantic_token.0,
+                )
+            })
+            .collect()
+    }
+
+    /// `concatenate_and_absolutize_relative_tokens` followed by
+    /// `convert_absolute_token_to_lsp_token`, as in `get_semantic_tokens`.
+    pub fn lsp_tokens_of_parsed_literals(
+        parsed_iso_literals: &[(IsoLiteralExtractionResult, TextSource)],
+        page_content: &str,
+    ) -> Vec<LspSemanticToken> {
+        let absolute_tokens =
+            concatenate_and_absolutize_relative_tokens(parsed_iso_literals.iter(), page_content);
+        convert_absolute_token_to_lsp_token(absolute_tokens, page_content).collect()
+    }
+}
